@@ -63,3 +63,22 @@ package mutable
 //@     requires [per_series_time] has && mt != nil ==> arg2 == ft
 //@   loop 1
 //@     invariant has == hasOrderFile && mt == mmsIdTime && (!hasOrderFile ==> flushTime == -9223372036854775808)
+
+// In-memory rows of a series are skipped only if the series' whole time span in the table lies outside the
+// (closed) query range: a range that starts exactly at the newest in-memory timestamp still sees that row.
+//@ prop C02
+//@ func (*MemTable).getSortedRecSafe
+//@   requires t != nil
+//@   ghost reached bool = false
+//@   call NewColumnSortHelper
+//@     set reached = true
+//@     frame nothing
+//@   call .Release
+//@     frame nothing
+//@   call .RowNums
+//@     frame nothing
+//@   call (*WriteChunk).SortRecordNoLock
+//@     frame nothing
+//@   call (*Record).Copy
+//@     frame nothing
+//@   ensures [skip_only_if_span_outside_range] forall c *WriteChunk :: (msName in old(t.msInfoMap)) && old(t.msInfoMap[msName]) != nil && (id in old(t.msInfoMap[msName].sidMap)) && c == old(t.msInfoMap[msName].sidMap[id]) && c != nil && old(c.WriteRec.lastAppendTime) >= tr.Min && old(c.WriteRec.firstAppendTime) <= tr.Max ==> reached
